@@ -329,6 +329,10 @@ type expEvent struct {
 	SizeSent bool     `json:"size_in_request"`
 	ETag     string   `json:"etag,omitempty"`
 	Vid      string   `json:"version_id,omitempty"`
+	// batch deletes: the id of the delete marker the response reported for an entry that named no version (the only
+	// version id such an entry's record may carry); MarkerKnown tells that the response was looked at
+	MarkerVid   string `json:"delete_marker_version_id,omitempty"`
+	MarkerKnown bool   `json:"-"`
 	Req      *reqRec  `json:"request"`
 	matched  int
 }
@@ -358,6 +362,7 @@ type round struct {
 }
 
 type worker struct {
+	batchVids map[string]string // version ids named by the entries of the batch delete being sent (key -> id)
 	rd        *round
 	w         int
 	root      *s3c.Client
@@ -555,7 +560,7 @@ func (w *worker) batchDelete(cl *s3c.Client, variant, bucket string, keys []stri
 	r, rec := w.do("batch-delete", variant, cl, &s3c.Req{Method: "POST", Path: s3c.BucketPath(bucket), Query: "delete", Body: body, Header: h}, bucket, keys)
 	if r.OK() {
 		var res struct {
-			Deleted []struct{ Key string }
+			Deleted []struct{ Key, VersionId, DeleteMarkerVersionId string }
 			Error   []struct{ Key, Code string }
 		}
 		if err := xml.Unmarshal(r.Body, &res); err != nil {
@@ -563,7 +568,13 @@ func (w *worker) batchDelete(cl *s3c.Client, variant, bucket string, keys []stri
 			return
 		}
 		for _, d := range res.Deleted {
-			w.expect(rec, "batch-delete", bucket, d.Key, -1, false, "", "")
+			w.expect(rec, "batch-delete", bucket, d.Key, -1, false, "", w.batchVids[d.Key])
+			if n := len(w.exps); n > 0 && w.batchVids[d.Key] == "" {
+				x := w.exps[n-1]
+				if x.Req == rec && x.Key == d.Key {
+					x.MarkerVid, x.MarkerKnown = d.DeleteMarkerVersionId, true
+				}
+			}
 		}
 		for _, e := range res.Error {
 			w.rd.c.Observe("DeleteObjects reported a per-key error: " + e.Code)
@@ -685,14 +696,30 @@ func (w *worker) scenario(s slot) {
 			w.batchDelete(w.root, v, m, keys, deleteXML(keys))
 			return
 		}
+		w.batchVids = map[string]string{}
 		for _, k := range keys {
-			if _, ok := w.seed(k); !ok {
+			_, r := w.putObject(w.root, "ok", w.bucket, k, nil)
+			if !r.OK() {
 				return
+			}
+			// versioned bucket: about half of the entries name the version that was just written, in any position
+			if vid := r.Header.Get("X-Amz-Version-Id"); vid != "" && v == "ok" && w.rng.Intn(2) == 0 {
+				w.batchVids[k] = vid
 			}
 		}
 		switch v {
 		case "ok":
-			w.batchDelete(w.root, v, b, keys, deleteXML(keys))
+			var sb strings.Builder
+			sb.WriteString(`<Delete xmlns="http://s3.amazonaws.com/doc/2006-03-01/">`)
+			for _, k := range keys {
+				sb.WriteString("<Object><Key>" + s3c.XMLEsc(k) + "</Key>")
+				if vid := w.batchVids[k]; vid != "" {
+					sb.WriteString("<VersionId>" + vid + "</VersionId>")
+				}
+				sb.WriteString("</Object>")
+			}
+			sb.WriteString(`</Delete>`)
+			w.batchDelete(w.root, v, b, keys, []byte(sb.String()))
 		case "malformed-xml":
 			x := deleteXML(keys)
 			w.batchDelete(w.root, v, b, keys, x[:len(x)-len("</Key></Object></Delete>")])
@@ -908,6 +935,9 @@ func (rd *round) judge(workers []*worker, docs [][]byte) judgeStats {
 			}
 		} else if gotV != "" && gotV != "null" && x.Kind != "batch-delete" {
 			viol("wrong-version:"+x.Kind, d())
+		} else if gotV != "" && gotV != "null" && x.Kind == "batch-delete" && x.MarkerKnown && gotV != x.MarkerVid {
+			// the entry named no version: its record may carry the id of the delete marker that was created, nothing else
+			viol("wrong-version:batch-delete:entry-without-version-id", d())
 		}
 	}
 
